@@ -1,6 +1,6 @@
 (* C11 — only delete options remove files, and only the files they name. *)
 From Coq Require Import List NArith Bool Arith.
-From PV Require Gen.Dispatch Spec.PublishedLayouts Proofs.DispatchFacts.
+From PV Require Gen.Dispatch Spec.PublishedLayouts Proofs.DispatchFacts Gen.CleanGen Spec.PublishedSkeletons Proofs.CleanSkelFacts.
 From PV Require Import Base.Bytes Base.Lit Base.Json Base.TextOrder Model.Cli Proofs.CliFacts Proofs.LookupFacts.
 Import ListNotations.
 Open Scope N_scope.
@@ -85,6 +85,22 @@ Theorem C11_delete_only_alone : forall a i, dispatch a = ADelete i \/ dispatch a
   a_list a = false /\ a_count a = false /\ a_all a = false.
 Proof. exact DispatchFacts.delete_only_when_alone. Qed.
 Print Assumptions C11_delete_only_alone.
+
+(* the delete functions themselves, as effect skeletons extracted from the source text (harness/extract_clean.py): equal to the published
+   ones, in which the directory walk is left after the top-level round, --delete removes a file and leaves the loop at once, and
+   --delete-all removes what os.path.isfile accepts *)
+Theorem C11_source_delete_skeletons :
+  Gen.CleanGen.ok_clean = true /\
+  Gen.CleanGen.sk_deleteAllPELs = Spec.PublishedSkeletons.sk_deleteAllPELs /\
+  Gen.CleanGen.sk_deletePELFromPELId = Spec.PublishedSkeletons.sk_deletePELFromPELId /\
+  Gen.CleanGen.sk_parsePelFromID = Spec.PublishedSkeletons.sk_parsePelFromID /\
+  (CleanSkelFacts.stops_after_first_round Spec.PublishedSkeletons.sk_deleteAllPELs && CleanSkelFacts.stops_after_first_round Spec.PublishedSkeletons.sk_deletePELFromPELId &&
+   CleanSkelFacts.stops_after_first_round Spec.PublishedSkeletons.sk_parsePelFromID &&
+   CleanSkelFacts.remove_then_break (CleanSkelFacts.inner_loop Spec.PublishedSkeletons.sk_deletePELFromPELId) &&
+   CleanSkelFacts.no_unknown Spec.PublishedSkeletons.sk_deleteAllPELs && CleanSkelFacts.no_unknown Spec.PublishedSkeletons.sk_deletePELFromPELId &&
+   CleanSkelFacts.no_unknown Spec.PublishedSkeletons.sk_parsePelFromID = true).
+Proof. repeat split; reflexivity. Qed.
+Print Assumptions C11_source_delete_skeletons.
 
 Example C11_example :
   effects (ADelete (L "0x5000a1b2")) [L "x"; L "2024_5000A1B2"; L "copy_5000A1B2"] (fun _ => true) (fun _ => None) None = [Remove (L "2024_5000A1B2")].
